@@ -491,6 +491,13 @@ def run_pure(spec: dict, history: List[list], opts: Optional[dict] = None) -> Ru
         return run
     run.interp = machine
     snap = None
+    from .fingerprint import diff as _fp_diff, machine_fp as _machine_fp
+
+    try:
+        fp_before = _machine_fp(machine)
+    except Exception:  # noqa
+        fp_before = None
+    run.machine_mutated = None
     try:
         for op in [["start"]] + list(history):
             m = rec.mark()
@@ -529,6 +536,14 @@ def run_pure(spec: dict, history: List[list], opts: Optional[dict] = None) -> Ru
             run.steps.append(o)
     except StepBudgetExceeded:
         run.aborted = "budget"
+    # the pure functions must leave the machine definition as they found it
+    if fp_before is not None:
+        try:
+            d_ = _fp_diff(fp_before, _machine_fp(machine))
+            if d_:
+                run.machine_mutated = {"path": d_[0], "before": repr(d_[1])[:120], "after": repr(d_[2])[:120]}
+        except Exception:  # noqa
+            pass
     return run
 
 
